@@ -126,8 +126,34 @@ fn field_variants() -> Vec<(&'static str, Vec<Box<dyn Fn(&mut Snap)>>)> {
     ]
 }
 
+/// rows with values too wide for their column (the width rule does not apply to them, but printing them
+/// must neither crash nor disturb the other rows)
+fn overflow_states() -> Vec<(String, Snap)> {
+    let mut v = vec![];
+    let muts: Vec<(&str, Box<dyn Fn(&mut Snap)>)> = vec![
+        ("vrate-6", Box::new(|s: &mut Snap| s.vrate = Some(-12736))),
+        ("dist-7", Box::new(|s: &mut Snap| s.dist = Some(18318.4f64.to_bits()))),
+        ("alt-6", Box::new(|s: &mut Snap| s.altitude = Some(126700))),
+        ("gs-4", Box::new(|s: &mut Snap| s.grspeed = Some(4092))),
+        ("ais-9", Box::new(|s: &mut Snap| s.ais = Some("ABCDEFGHI".into()))),
+        ("mach-5", Box::new(|s: &mut Snap| s.mach = Some(10.236f64.to_bits()))),
+        ("lc-3", Box::new(|s: &mut Snap| s.age = 100_000)),
+        ("hdg-4", Box::new(|s: &mut Snap| s.heading = Some(1023))),
+        ("many", Box::new(|s: &mut Snap| { s.vrate = Some(-12736); s.dist = Some(18318.4f64.to_bits()); s.heading = Some(1023); s.altitude = Some(126700); })),
+    ];
+    for (n, m) in muts {
+        for (bn, base) in [("blank", base_blank()), ("filled", base_filled())] {
+            let mut s = base;
+            m(&mut s);
+            v.push((format!("overflow:{n}/{bn}"), s));
+        }
+    }
+    v
+}
+
 fn row_states() -> Vec<(String, Snap)> {
     let mut v = vec![("all-blank".to_string(), base_blank()), ("all-filled".to_string(), base_filled())];
+    v.extend(overflow_states());
     for (name, vars) in field_variants() {
         for (i, m) in vars.iter().enumerate() {
             for (bn, base) in [("blank", base_blank()), ("filled", base_filled())] {
@@ -165,9 +191,13 @@ fn print_rows(args: &Args, rows: &[Snap]) -> (String, String, Vec<String>, Strin
     let flags = DisplayFlags::from_arg_str(&flags_str);
     let headers = LegendHeaders::from_display_flags(&flags);
     let planes = Planes { aircrafts: restore(rows) };
-    let ((), out) = capture_stdout(|| planes.print(args, &flags));
+    let (res, out) = capture_stdout(|| std::panic::catch_unwind(std::panic::AssertUnwindSafe(|| planes.print(args, &flags))));
     let txt = String::from_utf8_lossy(&out).into_owned();
-    (headers.header.clone(), headers.separator.clone(), txt.lines().map(|s| s.to_string()).collect(), flags_str)
+    let mut lines: Vec<String> = txt.lines().map(|s| s.to_string()).collect();
+    if res.is_err() {
+        lines = vec!["<<print panicked>>".to_string()];
+    }
+    (headers.header.clone(), headers.separator.clone(), lines, flags_str)
 }
 
 fn check_state(ctx: &mut Ctx, letters: &str, spelling: &[String], sname: &str, s: &Snap) {
@@ -185,6 +215,10 @@ fn check_state(ctx: &mut Ctx, letters: &str, spelling: &[String], sname: &str, s
     ctx.count("row-checked");
     let key = format!("-i {letters:?} ({}) / {sname}", spelling.join(" "));
     let case = || json!({"letters": letters, "spelling": spelling, "state": sname});
+    if rows.first().map(|r| r.as_str()) == Some("<<print panicked>>") {
+        ctx.violation("C14/print-crash", &key, || format!("{key}: printing the table panicked"), case);
+        return;
+    }
     if rows.len() != 1 {
         ctx.violation("C14/print", &key, || format!("{key}: {} lines printed for one aircraft", rows.len()), case);
         return;
@@ -295,6 +329,35 @@ fn run(ctx: &mut Ctx) {
             }
         }
     }
+    // an over-wide row next to an ordinary one: the ordinary row must be rendered as if it were alone
+    job += 1;
+    if ctx.mine(job) {
+        for letters in ["aAews", "", "e"] {
+            for (sname, ov) in overflow_states() {
+                let mut other = base_filled();
+                other.icao = 0x3C6586;
+                other.key = 0x3C6586;
+                other.reg = "DE".into();
+                let argv = vec!["squitterator".to_string(), "-o".to_string(), "".to_string(), "-i".to_string(), letters.to_string()];
+                let args = Args::try_parse_from(&argv).expect("args");
+                let (header, sep, rows, _) = print_rows(&args, &[other.clone(), ov.clone()]);
+                ctx.eval();
+                ctx.count("row-checked");
+                let key = format!("-i {letters:?} / ordinary row next to {sname}");
+                let case = || json!({"letters": letters, "pair": sname});
+                let line = rows.iter().find(|r| r.starts_with("3C6586"));
+                match line {
+                    None => ctx.violation("C14/pair", &key, || format!("{key}: the ordinary row is missing ({} lines: {:?})", rows.len(), rows.first()), case),
+                    Some(l) => {
+                        let bad = render::check_row(&header, &sep, l, &other, letters);
+                        if !bad.is_empty() {
+                            ctx.violation("C14/pair", &key, || format!("{key}: {}", bad.join("; ")), case);
+                        }
+                    }
+                }
+            }
+        }
+    }
     let hists = cli_histories();
     for letters in subsets() {
         let full = letters.len() == 5 || letters.is_empty() || ctx.tier.thorough();
@@ -317,6 +380,25 @@ fn run(ctx: &mut Ctx) {
 
 fn replay(ctx: &mut Ctx, case: &Value) {
     let letters = case.get("letters").and_then(|x| x.as_str()).unwrap_or("").to_string();
+    if let Some(sname) = case.get("pair").and_then(|x| x.as_str()) {
+        for (n, ov) in overflow_states() {
+            if n == sname {
+                let mut other = base_filled();
+                other.icao = 0x3C6586;
+                other.key = 0x3C6586;
+                other.reg = "DE".into();
+                let argv = vec!["squitterator".to_string(), "-o".to_string(), "".to_string(), "-i".to_string(), letters.clone()];
+                let args = Args::try_parse_from(&argv).expect("args");
+                let (header, sep, rows, _) = print_rows(&args, &[other.clone(), ov.clone()]);
+                crate::run::say(&format!("printed: {rows:?}"));
+                let bad = rows.iter().find(|r| r.starts_with("3C6586")).map(|l| render::check_row(&header, &sep, l, &other, &letters)).unwrap_or(vec!["ordinary row missing".into()]);
+                if !bad.is_empty() {
+                    ctx.violation("C14/pair", sname, || bad.join("; "), || case.clone());
+                }
+            }
+        }
+        return;
+    }
     if case.get("cli").is_some() {
         let hist: Vec<String> = case.get("history").and_then(|h| h.as_array()).map(|a| a.iter().filter_map(|x| x.as_str().map(String::from)).collect()).unwrap_or_default();
         check_cli(ctx, &letters, &hist);
